@@ -268,11 +268,11 @@ Proof. unfold cyl_solve. case_if; [discriminate|]. apply direct_solve_ordered. Q
     point at that distance lies on the surface *)
 Theorem surf_intersections_on_surface s p d on t :
   vdot d d = 1 ->
-  (on = true -> surf_f s p = 0) -> (on = false -> surf_f s p <> 0) ->
+  (on = true -> surf_f s p = 0) ->
   sound_regime s p d ->
   In (Some t) (surf_intersect s p d on) -> 0 < t /\ surf_f s (ray p d t) = 0.
 Proof.
-  intros Hd Hon Hoff Hreg Hin. rewrite surf_ray_poly.
+  intros Hd Hon Hreg Hin. rewrite surf_ray_poly.
   destruct (family_cases s) as [Hs|[Hs|[Hs|Hs]]].
   - apply plane_family in Hin; [|assumption]. destruct Hin as (_ & Hb & -> & Ht). split; [assumption|].
     assert (HA : surf_A s d = 0) by (destruct s; try discriminate; reflexivity).
@@ -291,8 +291,7 @@ Proof.
     unfold sound_regime in Hreg. rewrite Hs in Hreg.
     destruct on.
     + rewrite (Hon eq_refl) in *. apply solve_sound_on. assumption.
-    + apply solve_sound; [|assumption]. destruct Hreg as [Hr|Hr]; [left; assumption|right].
-      split; [assumption|]. apply Hoff. reflexivity.
+    + apply solve_sound; [|assumption]. destruct Hreg as [Hr|Hr]; [left|right]; assumption.
 Qed.
 
 Lemma min_isect_pair (r : isect2 (T:=R)) :
